@@ -1,27 +1,34 @@
 // Driver for C17 (RP callback: state cookie and PKCE binding).
 //
 // Runs the real rp.AuthURLHandler / rp.CodeExchangeHandler of a relying party
-// built with rp.NewRelyingPartyOAuth and a real CookieHandler, against a
-// browser jar kept by the driver and a token endpoint faked as the RP's
-// http.RoundTripper (no sockets).  Real cookie strings are mapped to the
+// built with rp.NewRelyingPartyOAuth or with rp.NewRelyingPartyOIDC (against a
+// mock OP: discovery document, JWKS and token endpoint served by the RP's
+// http.RoundTripper, no sockets) and a real CookieHandler, against a browser jar
+// kept by the driver.  The way the RP is built is part of the input: constructor,
+// option list in order, what the OP's discovery document announces.  Real cookie strings are mapped to the
 // model's symbolic values: `Mac key name value` for what a CookieHandler with
 // key material #key minted for that name and value, `Junk label` otherwise.
 package main
 
 import (
+	"context"
 	"crypto/rand"
 	"crypto/rsa"
 	"crypto/x509"
+	"encoding/json"
 	"encoding/pem"
 	"fmt"
 	"io"
+	"log/slog"
 	"net/http"
 	"net/http/httptest"
 	"net/url"
 	"os"
 	"sort"
 	"strings"
+	"time"
 
+	jose "github.com/go-jose/go-jose/v4"
 	"github.com/google/uuid"
 	"golang.org/x/oauth2"
 
@@ -190,16 +197,22 @@ func (w *world) mint(k int, name, value string) entry {
 	if err := w.twin[k].SetCookie(rec, name, value); err != nil {
 		return entry{name: name, raw: "", sym: cval{label: "mint-failed"}}
 	}
-	c := rec.Result().Cookies()[0]
-	return entry{name: name, raw: c.Value, sym: cval{mac: true, k: k, name: name, value: value}}
+	cs := rec.Result().Cookies()
+	if len(cs) == 0 {
+		return entry{name: name, raw: "", sym: cval{label: "mint-failed"}}
+	}
+	return entry{name: name, raw: cs[0].Value, sym: cval{mac: true, k: k, name: name, value: value}}
 }
 
-// classify a cookie the RP set: decode it with the twin of the RP's handler
+// classify a cookie the RP set: decode it with the twin of the RP's handler (and, should
+// the RP have used another handler passed to its constructor, with the foreign ones)
 func (w *world) classify(name, raw string) cval {
 	req := httptest.NewRequest("GET", "/", nil)
 	req.AddCookie(&http.Cookie{Name: name, Value: raw})
-	if v, err := w.twin[0].CheckCookie(req, name); err == nil {
-		return cval{mac: true, k: 0, name: name, value: v}
+	for k := 0; k < nHandlers; k++ {
+		if v, err := w.twin[k].CheckCookie(req, name); err == nil {
+			return cval{mac: true, k: k, name: name, value: v}
+		}
 	}
 	return cval{label: "undecodable-set-cookie"}
 }
@@ -261,8 +274,48 @@ func (c cval) describe() string {
 
 // ---------- the relying party under test ----------
 
+// optSpec is one rp.Option passed to the constructor
+type optSpec struct {
+	kind string // cookie | pkce | jwt | neutral
+	k    int    // cookie / pkce: which CookieHandler (key material number)
+	name string // neutral: which option
+}
+
+func (o optSpec) coq() string {
+	switch o.kind {
+	case "cookie":
+		return emit.Ctor("WithCookieHandler", emit.Nat(o.k))
+	case "pkce":
+		return emit.Ctor("WithPKCE", emit.Nat(o.k))
+	case "jwt":
+		return "WithJWTProfile"
+	}
+	return emit.Ctor("WithNeutral", emit.Str(o.name))
+}
+
+// docSpec is the OP's discovery document (NewRelyingPartyOIDC only): the JSON members as
+// served (a member that is missing from the map is absent from the document, nil = null)
+type docSpec struct {
+	issuer    string
+	token     string
+	jwks      string
+	customURL string // WithCustomDiscoveryUrl, "" = the well-known location
+	fields    map[string]any
+}
+
+func (d docSpec) optList(key string) string {
+	if l, ok := d.fields[key].([]string); ok {
+		return emit.Some(emit.StrList(l))
+	}
+	return emit.None
+}
+
 type config struct {
-	pkce, jwt bool
+	pkce, jwt bool // what the option list amounts to (generation intent)
+	ctor      string // oauth | oidc
+	sibling   bool   // environment, not input: a second RP with the opposite PKCE setting is built (and used once) afterwards
+	opts      []optSpec
+	doc       docSpec
 	client    string
 	redirect  string
 	scopes    []string
@@ -272,12 +325,22 @@ type config struct {
 }
 
 func (c config) coq() string {
-	var ex []string
+	var ex, os []string
 	for _, kv := range c.extra {
 		ex = append(ex, emit.Pair(emit.Str(kv[0]), emit.Str(kv[1])))
 	}
-	return emit.Ctor("Cfg", emit.Nat(0), emit.Bool(c.pkce), emit.Bool(c.jwt), emit.Str(c.client),
-		emit.Str(c.redirect), emit.StrList(c.scopes), emit.Str(c.auth), emit.List(ex))
+	for _, o := range c.opts {
+		os = append(os, o.coq())
+	}
+	ctor := emit.Ctor("NewOAuth", emit.Str(c.auth))
+	if c.ctor == "oidc" {
+		ctor = emit.Ctor("NewOIDC", emit.Ctor("Disc", emit.Str(c.auth),
+			c.doc.optList("code_challenge_methods_supported"), c.doc.optList("scopes_supported"),
+			c.doc.optList("response_types_supported"), c.doc.optList("grant_types_supported"),
+			c.doc.optList("token_endpoint_auth_methods_supported")))
+	}
+	return emit.Ctor("Setup", ctor, emit.List(os), emit.Str(c.client),
+		emit.Str(c.redirect), emit.StrList(c.scopes), emit.List(ex))
 }
 
 type tokreq struct {
@@ -290,14 +353,43 @@ func (t tokreq) coq() string {
 	return emit.Ctor("TokReq", emit.Str(t.code), emit.Str(t.redirect), emit.Str(t.client), emit.OptStr(t.verifier), emit.Bool(t.assertion))
 }
 
-// fake token endpoint
+// the mock OP behind the RP's http client: token endpoint, and for NewRelyingPartyOIDC
+// the discovery document and the JWKS
 type fakeRT struct {
-	ok   bool
-	reqs []tokreq
+	ok     bool
+	dropID bool // OIDC: answer 200 without id_token
+	reqs   []tokreq
+	doc    *docSpec // nil for NewRelyingPartyOAuth
+	client string
+	signer jose.Signer
+	jwks   []byte
+}
+
+func httpResp(req *http.Request, status int, payload string) *http.Response {
+	return &http.Response{StatusCode: status, Status: http.StatusText(status), Proto: "HTTP/1.1", ProtoMajor: 1, ProtoMinor: 1,
+		Header: http.Header{"Content-Type": {"application/json"}}, Body: io.NopCloser(strings.NewReader(payload)), Request: req}
 }
 
 func (f *fakeRT) RoundTrip(req *http.Request) (*http.Response, error) {
-	body, _ := io.ReadAll(req.Body)
+	if f.doc != nil && req.Method == http.MethodGet {
+		u := req.URL.String()
+		switch {
+		case u == strings.TrimSuffix(f.doc.issuer, "/")+oidc.DiscoveryEndpoint || (f.doc.customURL != "" && u == f.doc.customURL):
+			b, _ := json.Marshal(f.doc.fields)
+			return httpResp(req, 200, string(b)), nil
+		case u == f.doc.jwks:
+			if len(f.reqs) == 0 { // a request to the provider that is not preceded by a token request
+				f.reqs = append(f.reqs, tokreq{code: "<jwks-request-before-any-token-request>"})
+			}
+			return httpResp(req, 200, string(f.jwks)), nil
+		}
+		f.reqs = append(f.reqs, tokreq{code: "<unexpected GET " + u + ">"})
+		return httpResp(req, 404, `{}`), nil
+	}
+	var body []byte
+	if req.Body != nil {
+		body, _ = io.ReadAll(req.Body)
+	}
 	vals, _ := url.ParseQuery(string(body))
 	t := tokreq{code: vals.Get("code"), redirect: vals.Get("redirect_uri"), client: vals.Get("client_id")}
 	if u, _, ok := req.BasicAuth(); ok {
@@ -311,12 +403,38 @@ func (f *fakeRT) RoundTrip(req *http.Request) (*http.Response, error) {
 	}
 	t.assertion = vals.Get("client_assertion") != "" && vals.Get("client_assertion_type") == oidc.ClientAssertionTypeJWTAssertion
 	f.reqs = append(f.reqs, t)
-	status, payload := 200, `{"access_token":"at","token_type":"Bearer","expires_in":3600}`
 	if !f.ok {
-		status, payload = 400, `{"error":"invalid_grant"}`
+		return httpResp(req, 400, `{"error":"invalid_grant"}`), nil
 	}
-	return &http.Response{StatusCode: status, Status: http.StatusText(status), Proto: "HTTP/1.1", ProtoMajor: 1, ProtoMinor: 1,
-		Header: http.Header{"Content-Type": {"application/json"}}, Body: io.NopCloser(strings.NewReader(payload)), Request: req}, nil
+	payload := map[string]any{"access_token": "at", "token_type": "Bearer", "expires_in": 3600}
+	if f.doc != nil && !f.dropID {
+		now := time.Now()
+		claims, _ := json.Marshal(map[string]any{"iss": f.doc.issuer, "sub": "user-1", "aud": []string{f.client},
+			"exp": now.Add(time.Hour).Unix(), "iat": now.Unix(), "auth_time": now.Unix()})
+		if sig, err := f.signer.Sign(claims); err == nil {
+			if tok, err := sig.CompactSerialize(); err == nil {
+				payload["id_token"] = tok
+			}
+		}
+	}
+	b, _ := json.Marshal(payload)
+	return httpResp(req, 200, string(b)), nil
+}
+
+// the OP's signing key (one per run)
+type opKeys struct {
+	signer jose.Signer
+	jwks   []byte
+}
+
+func newOPKeys(key *rsa.PrivateKey) opKeys {
+	signer, err := jose.NewSigner(jose.SigningKey{Algorithm: jose.RS256, Key: jose.JSONWebKey{Key: key, KeyID: "op-key-1"}}, nil)
+	if err != nil {
+		fmt.Fprintln(os.Stderr, err)
+		os.Exit(2)
+	}
+	set, _ := json.Marshal(jose.JSONWebKeySet{Keys: []jose.JSONWebKey{{Key: &key.PublicKey, KeyID: "op-key-1", Algorithm: "RS256", Use: "sig"}}})
+	return opKeys{signer: signer, jwks: set}
 }
 
 type party struct {
@@ -330,31 +448,55 @@ type party struct {
 	called []string // handlers that ran, as Coq terms
 }
 
-func newParty(w *world, cfg config, pemKey []byte) (*party, error) {
-	p := &party{w: w, cfg: cfg, rt: &fakeRT{}}
-	ch := httphelper.NewCookieHandler(w.keys[0][0], w.keys[0][1])
-	opts := []rp.Option{
-		rp.WithHTTPClient(&http.Client{Transport: p.rt}),
-		rp.WithAuthStyle(cfg.style),
-		rp.WithUnauthorizedHandler(func(_ http.ResponseWriter, _ *http.Request, _ string, state string) {
-			p.called = append(p.called, emit.Ctor("HUnauth", emit.Str(state)))
-		}),
-		rp.WithErrorHandler(func(_ http.ResponseWriter, _ *http.Request, e, d, state string) {
-			p.called = append(p.called, emit.Ctor("HError", emit.Str(e), emit.Str(d), emit.Str(state)))
-		}),
+func newParty(w *world, cfg config, pemKey []byte, ok opKeys) (*party, error) {
+	p := &party{w: w, cfg: cfg, rt: &fakeRT{client: cfg.client, signer: ok.signer, jwks: ok.jwks}}
+	if cfg.ctor == "oidc" {
+		p.rt.doc = &p.cfg.doc
 	}
-	if cfg.pkce {
-		opts = append(opts, rp.WithPKCE(ch))
+	var opts []rp.Option
+	for _, o := range cfg.opts {
+		switch o.kind {
+		case "cookie":
+			opts = append(opts, rp.WithCookieHandler(httphelper.NewCookieHandler(w.keys[o.k][0], w.keys[o.k][1])))
+		case "pkce":
+			opts = append(opts, rp.WithPKCE(httphelper.NewCookieHandler(w.keys[o.k][0], w.keys[o.k][1])))
+		case "jwt":
+			opts = append(opts, rp.WithJWTProfile(rp.SignerFromKeyAndKeyID(pemKey, "kid1")))
+		default:
+			switch o.name {
+			case "WithHTTPClient":
+				opts = append(opts, rp.WithHTTPClient(&http.Client{Transport: p.rt}))
+			case "WithAuthStyle":
+				opts = append(opts, rp.WithAuthStyle(cfg.style))
+			case "WithUnauthorizedHandler":
+				opts = append(opts, rp.WithUnauthorizedHandler(func(_ http.ResponseWriter, _ *http.Request, _ string, state string) {
+					p.called = append(p.called, emit.Ctor("HUnauth", emit.Str(state)))
+				}))
+			case "WithErrorHandler":
+				opts = append(opts, rp.WithErrorHandler(func(_ http.ResponseWriter, _ *http.Request, e, d, state string) {
+					p.called = append(p.called, emit.Ctor("HError", emit.Str(e), emit.Str(d), emit.Str(state)))
+				}))
+			case "WithSigningAlgsFromDiscovery":
+				opts = append(opts, rp.WithSigningAlgsFromDiscovery())
+			case "WithCustomDiscoveryUrl":
+				opts = append(opts, rp.WithCustomDiscoveryUrl(cfg.doc.customURL))
+			case "WithVerifierOpts":
+				opts = append(opts, rp.WithVerifierOpts(rp.WithIssuedAtOffset(5*time.Second)))
+			case "WithLogger":
+				opts = append(opts, rp.WithLogger(slog.New(slog.NewTextHandler(io.Discard, nil))))
+			}
+		}
+	}
+	var party rp.RelyingParty
+	var err error
+	if cfg.ctor == "oidc" {
+		party, err = rp.NewRelyingPartyOIDC(context.Background(), cfg.doc.issuer, cfg.client, "secret", cfg.redirect, cfg.scopes, opts...)
 	} else {
-		opts = append(opts, rp.WithCookieHandler(ch))
+		party, err = rp.NewRelyingPartyOAuth(&oauth2.Config{
+			ClientID: cfg.client, ClientSecret: "secret", RedirectURL: cfg.redirect, Scopes: cfg.scopes,
+			Endpoint: oauth2.Endpoint{AuthURL: cfg.auth, TokenURL: "https://op.example/oauth/token"},
+		}, opts...)
 	}
-	if cfg.jwt {
-		opts = append(opts, rp.WithJWTProfile(rp.SignerFromKeyAndKeyID(pemKey, "kid1")))
-	}
-	party, err := rp.NewRelyingPartyOAuth(&oauth2.Config{
-		ClientID: cfg.client, ClientSecret: "secret", RedirectURL: cfg.redirect, Scopes: cfg.scopes,
-		Endpoint: oauth2.Endpoint{AuthURL: cfg.auth, TokenURL: "https://op.example/oauth/token"},
-	}, opts...)
 	if err != nil {
 		return nil, err
 	}
@@ -387,7 +529,45 @@ func newParty(w *world, cfg config, pemKey []byte) (*party, error) {
 	p.cb = rp.CodeExchangeHandler(func(_ http.ResponseWriter, _ *http.Request, _ *oidc.Tokens[*oidc.IDTokenClaims], state string, _ rp.RelyingParty) {
 		p.called = append(p.called, emit.Ctor("HApp", emit.Str(state)))
 	}, party, reentrant)
+	if cfg.sibling {
+		drv.Catch(func() { runSibling(w, cfg, ok) })
+	}
 	return p, nil
+}
+
+// runSibling builds ANOTHER relying party in the same process after the one under test - same
+// constructor kind, same cookie keys, the opposite PKCE setting, another client, an OP that
+// announces other code challenge methods - and lets it start one login.  Relying parties are
+// independent values: nothing of this may show in the RP under test.
+func runSibling(w *world, cfg config, ok opKeys) {
+	doc := docSpec{issuer: "https://sibling.example", token: "https://sibling.example/token", jwks: "https://sibling.example/keys"}
+	methods := []string{"plain"}
+	if !cfg.pkce {
+		methods = []string{"S256"}
+	}
+	doc.fields = map[string]any{"issuer": doc.issuer, "authorization_endpoint": "https://sibling.example/auth", "token_endpoint": doc.token,
+		"jwks_uri": doc.jwks, "code_challenge_methods_supported": methods, "scopes_supported": []string{"sibling"}}
+	rt := &fakeRT{client: "sibling", signer: ok.signer, jwks: ok.jwks, doc: &doc}
+	ch := httphelper.NewCookieHandler(w.keys[0][0], w.keys[0][1])
+	opts := []rp.Option{rp.WithHTTPClient(&http.Client{Transport: rt})}
+	if cfg.pkce {
+		opts = append(opts, rp.WithCookieHandler(ch))
+	} else {
+		opts = append(opts, rp.WithPKCE(ch))
+	}
+	var sib rp.RelyingParty
+	var err error
+	if cfg.ctor == "oidc" {
+		sib, err = rp.NewRelyingPartyOIDC(context.Background(), doc.issuer, "sibling", "s", "https://sibling.example/cb", []string{"sibling"}, opts...)
+	} else {
+		sib, err = rp.NewRelyingPartyOAuth(&oauth2.Config{ClientID: "sibling", RedirectURL: "https://sibling.example/cb", Scopes: []string{"sibling"},
+			Endpoint: oauth2.Endpoint{AuthURL: "https://sibling.example/auth", TokenURL: doc.token}}, opts...)
+	}
+	if err != nil {
+		return
+	}
+	rp.AuthURLHandler(func() string { return "sibling-state" }, sib, rp.WithURLParam("sibling", "1")).
+		ServeHTTP(httptest.NewRecorder(), httptest.NewRequest("GET", "https://sibling.example/login", nil))
 }
 
 func attach(req *http.Request, j jar) {
@@ -553,9 +733,13 @@ func (x *runner) emit(opCoq, evCoq string, human map[string]any) int {
 // isolated runs one request with its own handler / token-request records
 func (x *runner) isolated(tokOK bool, f func()) (called []string, reqs []tokreq) {
 	p := x.p
-	sc, sr, sok := p.called, p.rt.reqs, p.rt.ok
-	p.called, p.rt.reqs, p.rt.ok = nil, nil, tokOK
-	defer func() { p.called, p.rt.reqs, p.rt.ok = sc, sr, sok }()
+	sc, sr, sok, sdrop := p.called, p.rt.reqs, p.rt.ok, p.rt.dropID
+	p.called, p.rt.reqs, p.rt.ok, p.rt.dropID = nil, nil, tokOK, false
+	if p.cfg.ctor == "oidc" && !tokOK && x.r.Chance(1, 3) {
+		// an OIDC RP must also refuse a token response without id_token: same outcome as a refusing endpoint
+		p.rt.ok, p.rt.dropID = true, true
+	}
+	defer func() { p.called, p.rt.reqs, p.rt.ok, p.rt.dropID = sc, sr, sok, sdrop }()
 	f()
 	return p.called, p.rt.reqs
 }
@@ -736,15 +920,142 @@ func clipQ(q [][2]string) [][2]string {
 
 // ---------- generators ----------
 
-var statePool = []string{"", "st-1", "st-2", "st-3", "a b&c=d", "Zm9v.YmFy-_~", "säöü%20", "x", "0123456789abcdef0123456789abcdef", strings.Repeat("long", 40)}
+var statePool = []string{"", "st-1", "st-2", "st-3", "a b&c=d", "Zm9v.YmFy-_~", "säöü%20", "x", "0123456789abcdef0123456789abcdef", strings.Repeat("long", 40),
+	"st-1", "st-2", "st-3", "Kst-sk", // (weight on the short tokens; one with letters that have Unicode case-folding partners)
+	// keyword-like literals and states that themselves carry white space / a trailing slash / upper case
+	"null", "undefined", "0", "false", "[]", "{}", "st-1 ", " st-1", "st-1/", "ST-1", "st-1\n", "st+1"}
 
-func genConfig(r drv.Rand) config {
+// oddCodes: authorization codes that look like keywords, are empty, carry separators, or are long
+var oddCodes = []string{"", "null", "undefined", "0", "false", "[]", "a b+c%2F&d=e", " code-1", "code-1 ", strings.Repeat("c0de", 300), strings.Repeat("LongCode", 530)}
+
+
+// ---- the constructor dimension ----
+
+// what an OP may announce as code_challenge_methods_supported (nil entry = member absent;
+// "null" = the JSON literal): S256 alone, with others, in other spellings, not at all
+var methodVariants = []struct {
+	tag string
+	val any
+}{
+	{"absent", struct{}{}}, {"S256", []string{"S256"}}, {"plain", []string{"plain"}}, {"empty", []string{}},
+	{"plain+S256", []string{"plain", "S256"}}, {"s256-lower", []string{"s256"}}, {"S512", []string{"S512"}},
+	{"null", nil}, {"S256+plain", []string{"S256", "plain"}}, {"S256-trailing-space", []string{"S256 "}},
+	{"sha256-names", []string{"SHA256", "sha-256"}}, {"emptystring", []string{""}}, {"plain+s256-lower", []string{"plain", "s256"}},
+	{"S256-twice", []string{"S256", "S256"}}, {"none", []string{"none"}}, {"unknown-many", []string{"S384", "S512", "plain", "ES256"}},
+	{"S256-leading-space", []string{" S256"}}, {"S256-kelvin-free-case", []string{"S256", "s256"}},
+}
+
+func setMember(fields map[string]any, key string, v any) {
+	if _, absent := v.(struct{}); absent {
+		return
+	}
+	fields[key] = v
+}
+
+// genDoc: the discovery document of the mock OP.  Everything an OP may announce that a
+// client could be tempted to "negotiate" on is varied: code challenge methods, scopes
+// (relative to the configured ones), response types, grant types, token endpoint
+// authentication methods, response modes; plus members the library does not know.
+func genDoc(r drv.Rand, c *config, methodIdx int) (tags []string) {
+	issuer := drv.Pick(r, []string{"https://op.example", "https://op.example", "https://op.example/realms/a", "https://login.op.example/"})
+	base := strings.TrimSuffix(issuer, "/")
+	d := docSpec{issuer: issuer, token: base + "/oauth/token", jwks: base + "/keys", fields: map[string]any{}}
+	f := d.fields
+	f["issuer"] = issuer
+	f["authorization_endpoint"] = c.auth
+	f["token_endpoint"] = d.token
+	f["jwks_uri"] = d.jwks
+	f["userinfo_endpoint"] = base + "/userinfo"
+	f["subject_types_supported"] = []string{"public"}
+	absent := struct{}{}
+	mv := methodVariants[methodIdx%len(methodVariants)]
+	setMember(f, "code_challenge_methods_supported", mv.val)
+	tags = append(tags, "methods="+mv.tag)
+	upper := func(l []string) []string {
+		out := []string{}
+		for _, x := range l {
+			out = append(out, strings.ToUpper(x))
+		}
+		return out
+	}
+	var subset []string
+	if len(c.scopes) > 1 {
+		subset = c.scopes[:1]
+	} else {
+		subset = []string{}
+	}
+	sv := r.IntN(8)
+	setMember(f, "scopes_supported", []any{absent, append([]string{}, c.scopes...), append(append([]string{}, c.scopes...), "offline_access", "phone"),
+		subset, []string{"address"}, upper(c.scopes), []string{}, nil}[sv])
+	tags = append(tags, "scopesdoc="+[]string{"absent", "same", "superset", "subset", "disjoint", "uppercase", "empty", "null"}[sv])
+	setMember(f, "response_types_supported", drv.Pick(r, []any{absent, []string{"code"}, []string{"code", "id_token", "id_token token"},
+		[]string{"id_token"}, []string{"CODE"}, []string{}, nil}))
+	setMember(f, "grant_types_supported", drv.Pick(r, []any{absent, []string{"authorization_code", "refresh_token"}, []string{"implicit"},
+		[]string{"client_credentials", "urn:ietf:params:oauth:grant-type:jwt-bearer"}, []string{}}))
+	setMember(f, "token_endpoint_auth_methods_supported", drv.Pick(r, []any{absent, []string{"client_secret_basic"}, []string{"client_secret_post"},
+		[]string{"private_key_jwt"}, []string{"none"}, []string{"client_secret_basic", "client_secret_post", "private_key_jwt"}, []string{}}))
+	setMember(f, "response_modes_supported", drv.Pick(r, []any{absent, absent, []string{"query", "fragment"}, []string{"form_post"}}))
+	setMember(f, "id_token_signing_alg_values_supported", drv.Pick(r, []any{[]string{"RS256"}, []string{"RS256"}, []string{"ES256", "RS256"}}))
+	if r.Chance(1, 3) { // members this library does not know
+		f["require_pushed_authorization_requests"] = r.Bool()
+		f["pkce_required"] = r.Bool()
+		f["authorization_response_iss_parameter_supported"] = true
+	}
+	if r.Chance(1, 4) {
+		f["request_parameter_supported"] = true
+		f["claims_parameter_supported"] = r.Bool()
+	}
+	c.doc = d
+	return tags
+}
+
+// handler option layouts: the LAST option that sets a cookie handler carries the RP's keys
+// (#0); earlier ones may carry a foreign handler.  f = a foreign handler number.
+func handlerOpts(r drv.Rand, pkce bool, f int) (opts []optSpec, layout string) {
+	ck := func(k int) optSpec { return optSpec{kind: "cookie", k: k} }
+	pk := func(k int) optSpec { return optSpec{kind: "pkce", k: k} }
+	x := r.IntN(14)
+	if pkce {
+		switch x {
+		case 0:
+			return []optSpec{ck(f), pk(0)}, "cookie(foreign);pkce"
+		case 1:
+			return []optSpec{pk(f), ck(0)}, "pkce(foreign);cookie"
+		case 2:
+			return []optSpec{pk(0), ck(0)}, "pkce;cookie"
+		case 3:
+			return []optSpec{pk(f), pk(0)}, "pkce(foreign);pkce"
+		case 4:
+			return []optSpec{ck(0), pk(0)}, "cookie;pkce"
+		case 5:
+			return []optSpec{pk(0), ck(f), ck(0)}, "pkce;cookie(foreign);cookie"
+		}
+		return []optSpec{pk(0)}, "pkce"
+	}
+	switch x {
+	case 0, 1:
+		return []optSpec{ck(f), ck(0)}, "cookie(foreign);cookie"
+	case 2:
+		return []optSpec{ck(0), ck(0)}, "cookie;cookie"
+	}
+	return []optSpec{ck(0)}, "cookie"
+}
+
+var manyScopes = func() []string {
+	l := []string{"openid"}
+	for i := 0; i < 60; i++ {
+		l = append(l, fmt.Sprintf("urn:example:scope:resource-%02d:read", i))
+	}
+	return l
+}()
+
+func genConfig(r drv.Rand, w *world, idx int) (config, []string) {
 	c := config{
 		pkce:     r.Chance(3, 5),
 		jwt:      r.Chance(1, 4),
-		client:   drv.Pick(r, []string{"web-client", "web-client", "cli ent&1=2", "native/app", ""}),
+		client:   drv.Pick(r, []string{"web-client", "web-client", "web-client", "cli ent&1=2", "native/app", "", "null", "Web-Client ", "client-" + strings.Repeat("0123456789", 110)}),
 		redirect: drv.Pick(r, []string{"https://rp.example/cb", "https://rp.example/cb", "http://localhost:9999/auth/callback?x=1&y=2", ""}),
-		scopes:   drv.Pick(r, [][]string{{"openid"}, {"openid", "profile", "email"}, {}, {"a+b", "c d"}}),
+		scopes:   drv.Pick(r, [][]string{{"openid"}, {"openid", "profile", "email"}, {"openid"}, {"openid", "profile", "email"}, {}, {"a+b", "c d"}, {"openid", "OpenID", "openid"}, manyScopes}),
 		auth:     drv.Pick(r, []string{"https://op.example/authorize", "https://op.example/oauth/v2/authorize"}),
 		style:    drv.Pick(r, []oauth2.AuthStyle{oauth2.AuthStyleInParams, oauth2.AuthStyleInParams, oauth2.AuthStyleInHeader}),
 	}
@@ -760,7 +1071,57 @@ func genConfig(r drv.Rand) config {
 	case 5:
 		c.extra = [][2]string{{"code_challenge", "mine"}, {"code_challenge_method", "plain"}}
 	}
-	return c
+	return c, nil
+}
+
+// finishConfig: constructor, discovery document and option list (after the case kind has
+// had its say on pkce)
+func finishConfig(r drv.Rand, w *world, c *config, idx int) (tags []string) {
+	c.ctor = "oauth"
+	if idx%9 >= 5 { // 4 of 9 cases use the discovery constructor; the methods variant cycles
+		c.ctor = "oidc"
+		mi := idx/9*4 + idx%9 - 5
+		if r.Chance(1, 3) {
+			mi = r.IntN(len(methodVariants))
+		}
+		tags = append(tags, genDoc(r, c, mi)...)
+	}
+	tags = append(tags, "ctor="+c.ctor)
+	c.sibling = r.Chance(1, 4)
+	tags = append(tags, fmt.Sprintf("sibling=%v", c.sibling))
+	hs, layout := handlerOpts(r, c.pkce, w.foreign(r))
+	tags = append(tags, "opts="+layout)
+	neutral := []string{"WithHTTPClient", "WithAuthStyle", "WithUnauthorizedHandler", "WithErrorHandler"}
+	if r.Chance(1, 5) {
+		neutral = append(neutral, "WithLogger")
+	}
+	if c.ctor == "oidc" {
+		if r.Chance(1, 3) {
+			neutral = append(neutral, "WithSigningAlgsFromDiscovery")
+		}
+		if r.Chance(1, 5) {
+			neutral = append(neutral, "WithVerifierOpts")
+		}
+		if r.Chance(1, 6) {
+			c.doc.customURL = "https://meta.example/custom/openid-configuration"
+			neutral = append(neutral, "WithCustomDiscoveryUrl")
+		}
+	}
+	if c.jwt {
+		hs = append(hs, optSpec{})
+		at := r.IntN(len(hs))
+		copy(hs[at+1:], hs[at:])
+		hs[at] = optSpec{kind: "jwt"}
+	}
+	// the neutral options go to random places; the order of the others is kept
+	c.opts = hs
+	for _, n := range neutral {
+		at := r.IntN(len(c.opts) + 1)
+		c.opts = append(c.opts, optSpec{})
+		copy(c.opts[at+1:], c.opts[at:])
+		c.opts[at] = optSpec{kind: "neutral", name: n}
+	}
+	return tags
 }
 
 // pickState: what the application's state generator returns.  Short tokens, empty,
@@ -784,6 +1145,11 @@ func pickState(r drv.Rand) string {
 func nearMiss(r drv.Rand, s string) string {
 	var c []string
 	c = append(c, s+"x", "")
+	// values a "normalising" comparison would accept: surrounding white space (also as it
+	// would look if somebody decoded twice), trailing slash, Unicode case folding partners
+	c = append(c, s+" ", " "+s, s+"\t", s+"\n", s+"\r\n", s+"/", s+"%20", s+"+", s+"\x00",
+		strings.TrimSuffix(s, "/"), strings.TrimSpace(s),
+		strings.NewReplacer("s", "\u017f", "k", "\u212a", "K", "\u212a", "S", "\u017f").Replace(s))
 	if len(s) > 0 {
 		c = append(c, s[:len(s)-1], s[1:], strings.ToUpper(s), strings.ToLower(s))
 		b := []byte(s)
@@ -823,6 +1189,9 @@ type cbq struct {
 func callbackQuery(r drv.Rand, state string, code string) cbq {
 	if r.Chance(1, 5) {
 		state = nearMiss(r, state)
+	}
+	if r.Chance(1, 8) {
+		code = drv.Pick(r, oddCodes)
 	}
 	other := "other-" + state
 	q := [][2]string{{"code", code}, {"state", state}}
@@ -907,6 +1276,12 @@ func main() {
 		os.Exit(2)
 	}
 	pemKey := pem.EncodeToMemory(&pem.Block{Type: "RSA PRIVATE KEY", Bytes: x509.MarshalPKCS1PrivateKey(rsaKey)})
+	opKey, err := rsa.GenerateKey(rand.Reader, 2048)
+	if err != nil {
+		fmt.Fprintln(os.Stderr, err)
+		os.Exit(2)
+	}
+	opk := newOPKeys(opKey)
 
 	ord2, ord3 := orderings(2), orderings(3)
 	ordIdx := 0
@@ -914,19 +1289,28 @@ func main() {
 
 	for i := 0; i < n; i++ {
 		wd := newWorld(r)
-		c := genConfig(r)
+		c, _ := genConfig(r, wd, i)
 		kind := i % 12
 		if kind >= 10 && r.Chance(5, 6) {
 			c.pkce = true
 		}
-		p, err := newParty(wd, c, pemKey)
-		if err != nil {
-			fmt.Fprintln(os.Stderr, "NewRelyingPartyOAuth:", err)
-			os.Exit(2)
+		ctags := finishConfig(r, wd, &c, i)
+		tags := append([]string{fmt.Sprintf("pkce=%v", c.pkce), fmt.Sprintf("jwt=%v", c.jwt), "rpkeys=" + wd.modes[0]}, ctags...)
+		var p *party
+		var err error
+		if pn := drv.Catch(func() { p, err = newParty(wd, c, pemKey, opk) }); pn != "" || err != nil {
+			// the constructor refused (or panicked on) a configuration the model builds an RP for
+			obs := "ONoRP"
+			if pn != "" {
+				obs = "OPanic"
+			}
+			w.Add(emit.Case{Input: emit.Ctor("Inp", c.coq(), "[]", "[]", emit.List([]string{emit.Ctor("OStart", emit.Str("st-1"), emit.Str(""))})),
+				Observed: obs, Tags: append(tags, "kind=constructor-failed"),
+				Human: map[string]any{"config": fmt.Sprintf("%+v", c), "constructor_error": fmt.Sprint(err), "panic": pn}})
+			continue
 		}
 		var j0 jar
 		var ops []op
-		tags := []string{fmt.Sprintf("pkce=%v", c.pkce), fmt.Sprintf("jwt=%v", c.jwt), "rpkeys=" + wd.modes[0]}
 		switch {
 		case kind < 3: // (jar, query) pair: scripted jar, one callback
 			tags = append(tags, "kind=pair")
@@ -952,8 +1336,8 @@ func main() {
 			case 4: // minted under other keys
 				j0 = j0.set(wd.mint(fk, "state", s))
 				tags = append(tags, "foreignkey="+wd.modes[fk])
-			case 5: // minted for the other name (pkce cookie holding the state), stored as "state"
-				e := wd.mint(0, "pkce", s)
+			case 5: // minted for another name (pkce cookie holding the state; near-miss names), stored as "state"
+				e := wd.mint(0, drv.Pick(r, []string{"pkce", "pkce", "State", "STATE", "state_", "stat", "state2", "pkcE"}), s)
 				e.name = "state"
 				j0 = j0.set(e)
 			case 6: // swapped: state cookie under "pkce", pkce cookie under "state"
@@ -1147,7 +1531,7 @@ func main() {
 			Human: map[string]any{"config": fmt.Sprintf("%+v", c), "jar": j0.coq(), "steps": res.human}})
 	}
 	err = w.Close(emit.Meta{Property: "C17", Tier: cfg.Tier, Seed: cfg.Seed,
-		Rule: "each case = one RP configuration (PKCE, JWT profile, client, redirect URI, scopes, URL options, auth style, cookie keys: hash key of 16/32/33/48/64/65/100 bytes, block key none/16/24/32) + initial jar + history in one browser jar. kind=pair: scripted jar (valid / other value / minted by a foreign CookieHandler whose keys are near misses of the RP's: differing tail behind a 64/32/16/8-byte prefix, prefix or extension of the hash key, same hash key with other block key, first byte, unrelated / other name / swapped / truncated / flipped / random / plaintext / missing / duplicate cookies) and one callback query; kind=ordering: every interleaving of 2 or 3 logins and their callbacks, cycled; kind=overlap: requests that run re-entrantly, on the same handler values, inside another request's option evaluation: login inside login (1st of 2, 2nd of 3, twice, after a finished flow), login+callback inside a callback, double-submitted callback, callback inside a login; states: short / empty / non-ASCII / 255-2000 bytes with shared prefixes / too long for the cookie; callback query shapes: state present / absent / empty / duplicated (same, different, first or last matching) / in the POST body vs the URL, with or without code and error; every 5th callback state is a near miss (prefix, suffix, case, one byte, cut at 64/128/255/256/257, tampered tail); kind=history: random logins (some overlapped), callbacks (GET/POST, lost responses), deletions and unacceptable foreign cookie writes; kind=replay: histories that also re-insert older validly minted cookies. Non-trivial = the model's path class != 0 (anything beyond 'no state cookie in the jar'); distinct = distinct (input, path).",
+		Rule: "each case = one way of building the RP + initial jar + history in one browser jar. Building the RP: constructor rp.NewRelyingPartyOAuth (5 of 9 cases) or rp.NewRelyingPartyOIDC against a mock OP (4 of 9; discovery document with code_challenge_methods_supported absent / null / [] / [S256] / [plain] / [plain,S256] / case and white-space variants of S256 / unknown methods (18 variants, cycled), scopes_supported absent / same / superset / subset / disjoint / upper-case / empty / null relative to the configured scopes, response types, grant types, token endpoint auth methods, response modes, unknown members; ID tokens signed by the mock OP, also token responses without id_token), the option list IN ORDER (WithPKCE / WithCookieHandler once or several times, earlier ones with a foreign CookieHandler, the last one with the RP's keys; WithJWTProfile and the neutral options at random positions), in 1 of 4 cases a second RP with the opposite PKCE setting built and used afterwards in the same process; client (also long / keyword-like), redirect URI, scopes (also 61 scopes, duplicates), URL options, auth style, cookie keys: hash key of 16/32/33/48/64/65/100 bytes, block key none/16/24/32. kind=pair: scripted jar (valid / other value / minted by a foreign CookieHandler whose keys are near misses of the RP's: differing tail behind a 64/32/16/8-byte prefix, prefix or extension of the hash key, same hash key with other block key, first byte, unrelated / other name / swapped / truncated / flipped / random / plaintext / missing / duplicate cookies) and one callback query; kind=ordering: every interleaving of 2 or 3 logins and their callbacks, cycled; kind=overlap: requests that run re-entrantly, on the same handler values, inside another request's option evaluation: login inside login (1st of 2, 2nd of 3, twice, after a finished flow), login+callback inside a callback, double-submitted callback, callback inside a login; states: short / empty / non-ASCII / 255-2000 bytes with shared prefixes / too long for the cookie; callback query shapes: state present / absent / empty / duplicated (same, different, first or last matching) / in the POST body vs the URL, with or without code and error; every 5th callback state is a near miss (prefix, suffix, case, Unicode case-folding partners, surrounding white space, trailing slash, one byte, cut at 64/128/255/256/257, tampered tail); every 8th code is empty / keyword-like / > 4 KiB; kind=history: random logins (some overlapped), callbacks (GET/POST, lost responses), deletions and unacceptable foreign cookie writes; kind=replay: histories that also re-insert older validly minted cookies. Non-trivial = the model's path class != 0 (anything beyond 'no state cookie in the jar'); distinct = distinct (input, path).",
 		Extra: map[string]any{"orderings_2": len(ord2), "orderings_3": len(ord3), "ordering_cases": ordIdx, "dropped": dropped},
 	})
 	if err != nil {
